@@ -4,24 +4,74 @@ import itertools
 ID = "C04"
 LEVEL = "exploration"
 FLAVOUR = "plain"
-TIMEOUT = 400
-RULE = ("cell = kind x page version x has_nulls; inside: value-order program (ascending, descending, min in the "
-        "middle, max first, all equal, single non-null, overlapping row-group ranges, touching ranges) x null pattern x row-group split (None and every [0,k]) x "
-        "stats (True, 'auto', [col], False) x page size (default, tiny); observed at three points: raw Statistics "
-        "bytes decoded by specpq, ParquetFile.statistics, sorted_partitioned_columns; oracle = pure-Python min/max "
-        "of the non-null values of each chunk under the type's ordering; non-trivial = a chunk with >= 1 non-null "
-        "value whose statistics were compared")
-ASSUMPTIONS = ["min/max absent is always accepted; present on an all-null chunk or min > max never is",
-               "floats: NaN is excluded from the order, -0.0 == 0.0", "text ordered by UTF-8 bytes (= code points)"]
+TIMEOUT = 900
+RULE = ("lattice cell = kind x page version x has_nulls; inside: value selection (lo = the six smallest pool values; "
+        "hi / xlo = the six largest / smallest of the pool extended by 2^53+1, denormal, years 1000 and 3000, sub-second "
+        "stamps before and after the epoch) x value-order program (ascending, descending, min in the middle, max first, "
+        "all equal, single non-null, overlapping row-group ranges, touching ranges) x null pattern x row-group split "
+        "(None, every [0,k], three-way [0,2,4] [0,1,5] [0,3,4] on a two-column frame c + int64 d) x stats (True, "
+        "'auto', [col], False) x page size (default, tiny) x times (int64, int96 for timestamps); kinds = the shared "
+        "alphabet plus masked Float64 and a categorical with timestamp labels; quick tier: all stats settings at None, "
+        "[0,3] (else True), tiny at None, [0,2,4] for every program and the other three-way splits for asc / overlap / "
+        "touch, ['c'] on three-way for asc / desc, hi and xlo for asc / desc / overlap x nulls none (+ alt for asc) x "
+        "None, [0,3], [0,2,4], int96 at None, [0,3] (+ [0,2,4] for asc / overlap); thorough: the full product (tiny "
+        "for hi / xlo at None only); observed at three points: raw Statistics bytes decoded by specpq (the deprecated "
+        "min/max and min_value/max_value, each when present), ParquetFile.statistics, sorted_partitioned_columns "
+        "(verdict in both directions, returned bounds, and with a filter on d that drops the middle row group); the "
+        "[0,3] stats=True files are re-footered as a writer of the current format would fill Statistics "
+        "(min_value/max_value only; quick for asc, thorough always: both pairs, mixed per row group) and the views "
+        "compared again; history cell = kind x has_nulls (thorough: x page version): on one handle, simple and hive, "
+        "statistics -> write_row_groups -> statistics -> slice -> (hive) remove_row_groups -> statistics -> "
+        "write_row_groups -> statistics, each time memoised property = statistics(pf) = re-opened handle = oracle; "
+        "oracle = pure-Python min/max of the non-null values of each chunk under the type's ordering; presence of "
+        "min/max, refusals and a declining view are pinned; non-trivial = a chunk with >= 1 non-null value whose "
+        "statistics were compared")
+ASSUMPTIONS = ["min/max absent is accepted where the writer is known to decline (pinned: stats=False, 'auto' on "
+               "non-numeric kinds, unlisted columns, all-null chunks, object text/bytes chunks holding None, JSON); "
+               "present on an all-null chunk or min > max never is",
+               "floats: NaN is excluded from the order, -0.0 == 0.0", "text ordered by UTF-8 bytes (= code points)",
+               "a write may be refused only for has_nulls=False on data that holds NULLs of a kind without an "
+               "in-band missing value"]
 
 PROGRAMS = ["asc", "desc", "min_mid", "max_first", "equal", "single", "overlap", "touch"]
+HI_PROGRAMS_QUICK = ["asc", "desc", "overlap"]
+LOCAL_KINDS = ["Float64", "cat_dt"]
+SPLITS3 = [[0, 2, 4], [0, 1, 5], [0, 3, 4]]
+FOREIGN_MODES = ["new_only", "both", "mixed"]
+MASKED = ("Int8", "Int16", "Int32", "Int64", "UInt8", "UInt16", "UInt32", "UInt64", "boolean", "Float64")
+TEXT_KINDS = ("str_obj", "str_pd", "cat_str", "cat_str_ordered", "cat_unused")
+
+
+def all_kinds():
+    from mc import alphabets as A
+    return list(A.ALL_KINDS) + LOCAL_KINDS
+
+
+def nullable(kind):
+    from mc import alphabets as A
+    return kind in A.NULLABLE_KINDS or kind in LOCAL_KINDS
+
+
+def patterns_for(kind):
+    from mc import alphabets as A
+    return A.NULLPATS if nullable(kind) else ["none"]
 
 
 def points(tier):
-    from mc import alphabets as A
     pts = []
-    for kind in A.ALL_KINDS:
+    for kind in all_kinds():
         for ver in (1, 2):
+            for hn in (True, False):
+                pts.append({"kind": kind, "v": ver, "has_nulls": hn, "tier": tier})
+    return pts
+
+
+def history_points(tier):
+    pts = []
+    for kind in all_kinds():
+        if kind == "json_obj":
+            continue
+        for ver in ((1, 2) if tier == "thorough" else (1,)):
             for hn in (True, False):
                 pts.append({"kind": kind, "v": ver, "has_nulls": hn, "tier": tier})
     return pts
@@ -29,6 +79,7 @@ def points(tier):
 
 def explore(run, tier):
     run.lattice("statistics", points(tier), "run")
+    run.lattice("history", history_points(tier), "run_history")
 
 
 def crash_sig(point, res):
@@ -38,9 +89,9 @@ def crash_sig(point, res):
 # -------------------------------------------------------------------------------------
 def order_key(kind):
     """sort key implementing the Parquet ordering of the column's type on canonical cells"""
-    if kind in ("str_obj", "str_pd") or kind in ("cat_str", "cat_str_ordered", "cat_unused"):
+    if kind in TEXT_KINDS:
         return lambda v: v.encode("utf8")
-    if kind.startswith(("dt_", "td_")):
+    if kind.startswith(("dt_", "td_")) or kind == "cat_dt":
         return lambda v: v[1]
     return lambda v: v
 
@@ -67,17 +118,75 @@ def arrange(vals, prog):
     raise KeyError(prog)
 
 
-def build_series(kind, prog, pat, n=6):
-    """Series of n rows whose non-null values follow the order program"""
+_DT_UNIT = {"dt_s": "s", "dt_ms": "ms", "dt_us": "us", "dt_ns": "ns", "dt_ns_utc": "ns", "dt_us_paris": "us",
+            "dt_ns_offset": "ns"}
+
+
+def _local_series(kind):
+    import numpy as np
     import pandas as pd
-    from mc import alphabets as A, oracles as O
-    base = A.series(kind, 7, "none")
+    if kind == "Float64":
+        inf = float("inf")
+        return pd.Series(pd.array([0.0, 1.5, -2.25, inf, -inf, 1.7976931348623157e308, 5e-324, -1e-300],
+                                  dtype="Float64"), name="c")
+    if kind == "cat_dt":
+        # labels in an order that is neither ascending nor descending, one of them unused
+        sec = [0, 1_600_000_000, -86_400, 4_102_444_800, 1, -2_208_988_800, 951_782_400]
+        lab = pd.to_datetime(np.array(sec, dtype="int64").view("M8[s]").astype("M8[us]"))
+        cats = lab[[3, 0, 5, 1, 6, 2, 4]].append(pd.to_datetime(np.array([86_400], "int64").view("M8[s]").astype("M8[us]")))
+        return pd.Series(pd.Categorical(lab, categories=cats), name="c")
+    raise KeyError(kind)
+
+
+def value_series(kind, extended):
+    """Series without NULLs holding the candidate values of the kind.
+    extended=False: exactly the seven first pool values (the selection this check always used);
+    extended=True: the whole pool plus boundary values that the six-smallest selection never reaches."""
+    import numpy as np
+    import pandas as pd
+    from mc import alphabets as A
+    if kind in LOCAL_KINDS:
+        return _local_series(kind)
+    if not extended:
+        return A.series(kind, 7, "none")
+    base = A.series(kind, len(A.pool(kind)), "none")
+    extra = None
+    if kind in ("int64", "uint64", "Int64", "UInt64"):
+        extra = pd.Series([2 ** 53 + 1], dtype=base.dtype)
+    elif kind in _DT_UNIT:
+        unit = _DT_UNIT[kind]
+        per_s = {"s": 1, "ms": 10 ** 3, "us": 10 ** 6, "ns": 10 ** 9}[unit]
+        frac = {"s": 0, "ms": 123, "us": 123_456, "ns": 123_456_789}[unit]
+        vals = [1_500_000_000 * per_s + frac, -82_800 * per_s + frac]      # sub-second, one of them before the epoch
+        if unit != "ns":
+            vals += [32_503_680_000 * per_s, -30_610_224_000 * per_s]      # years 3000 and 1000: outside the ns range
+        e = pd.Series(np.array(vals, dtype="int64").view("M8[%s]" % unit))
+        tz = getattr(base.dtype, "tz", None)
+        if tz is not None:
+            e = e.dt.tz_localize("UTC").dt.tz_convert(tz)
+        extra = e
+    if extra is not None:
+        out = pd.concat([base, extra], ignore_index=True)
+        if out.dtype != base.dtype:
+            raise AssertionError("value_series: dtype %s became %s" % (base.dtype, out.dtype))
+        out.name = "c"
+        return out
+    return base
+
+
+def build_series(kind, prog, pat, n=6, sel="lo"):
+    """Series of n rows whose non-null values follow the order program.
+    sel='lo': the n smallest distinct pool values; sel='hi' / 'xlo': the n largest / smallest of the extended pool
+    (None when that is not a different selection)."""
+    import pandas as pd
+    from mc import oracles as O
+    base = value_series(kind, sel != "lo")
     cells = O.series_to_list(base)
     key = order_key(kind)
     # distinct by canonical value, order by type order; keep original position to rebuild the Series
     seen = {}
     for i, c in enumerate(cells):
-        if kind.startswith("float") and c is not None and c == 0.0:
+        if kind.lower().startswith("float") and c is not None and c == 0.0:
             c0 = 0.0
         else:
             c0 = c
@@ -86,6 +195,15 @@ def build_series(kind, prog, pat, n=6):
     idx = sorted(seen.values(), key=lambda i: key(cells[i]))
     if len(idx) < 2:
         return None
+    if sel == "hi":
+        if len(idx) <= n:
+            return None
+        idx = idx[-n:]
+    elif sel == "xlo":
+        # the n smallest of the extended pool, when they are not the 'lo' selection again
+        lo = build_series(kind, "asc", "none", n, "lo")
+        if lo is None or len(idx) <= n or O.series_to_list(lo) == [cells[i] for i in idx[:n]]:
+            return None
     idx = (idx * 3)[:n] if len(idx) < n else idx[:n]
     idx = sorted(set(idx), key=lambda i: key(cells[i]))
     while len(idx) < n:
@@ -94,18 +212,19 @@ def build_series(kind, prog, pat, n=6):
     if prog == "single":
         order = [idx[0]] * n
         mask = [i != n // 2 for i in range(n)]
-        if kind not in A.NULLABLE_KINDS:
+        if not nullable(kind):
             return None
     else:
+        from mc import alphabets as A
         order = arrange(idx, prog)
         mask = A.nullmask(pat, n)
     s = base.iloc[order].reset_index(drop=True)
     if any(mask):
-        if kind not in A.NULLABLE_KINDS:
+        if not nullable(kind):
             return None
         s = s.copy()
         m = pd.Series(mask)
-        s = s.where(~m, other=(pd.NA if kind[0] in "IUb" and kind not in ("bool", "bytes_obj") else None)) \
+        s = s.where(~m, other=(pd.NA if kind in MASKED else None)) \
             if not kind.startswith("cat_") else s.where(~m)
     s.name = "c"
     return s
@@ -131,7 +250,7 @@ def decode_stat(raw, node, kind):
     else:
         v = C.plain_decode(raw, 0, len(raw), 1, t)[0][0]
     v = F.logical(v, node)
-    if kind.startswith("dt_"):
+    if kind.startswith("dt_") or kind == "cat_dt":
         ct, lt = node.ct, node.lt or {}
         unit = 1
         if ct == F.CT["TIMESTAMP_MILLIS"]:
@@ -149,158 +268,534 @@ def decode_stat(raw, node, kind):
     return v
 
 
+# ------------------------------------------------------------------------------------- pinned expectations
+def expect_minmax(kind, st, col, dtype_kind, nn, nulls):
+    """does the writer, as it stands, write min/max for this chunk?  True / False (= may be absent)."""
+    if not nn or kind == "json_obj":
+        return False
+    if st is False:
+        return False
+    if st == "auto":
+        return dtype_kind in ("i", "u", "f", "M")
+    if isinstance(st, list) and col not in st:
+        return False
+    if kind in ("str_obj", "bytes_obj") and nulls:
+        return False        # Series.max() of an object column holding None raises: the writer declines
+    return True
+
+
+NS_RANGE = (-(2 ** 63) + 1, 2 ** 63 - 1)
+
+
+def refusal_allowed(kind, hn, cells, times="int64"):
+    """has_nulls=False on data with NULLs of a kind that has no in-band missing value; int96 (nanoseconds of the day
+    computed through datetime64[ns]) for stamps outside the nanosecond range"""
+    if times == "int96" and any(x is not None and not (NS_RANGE[0] <= x[1] <= NS_RANGE[1]) for x in cells):
+        return True
+    if hn or not any(x is None for x in cells):
+        return False
+    return not (kind.lower().startswith("float") or kind.startswith(("dt_", "td_")))
+
+
+class Ctx:
+    """violation collector shared by the comparison helpers"""
+
+    def __init__(self, kind, ver, hn):
+        self.kind, self.ver, self.hn = kind, ver, hn
+        self.sigs = {}
+        self.detail = ""
+        self.ctx = {}
+        self.counts = {"chunks": 0, "refused": 0, "raw_compared": 0, "view_compared": 0, "spc_reported": 0,
+                       "spc_filtered": 0, "foreign_files": 0, "history_steps": 0, "new_pair_compared": 0}
+
+    def bad(self, symptom, msg, **extra):
+        s = {"kind": self.kind, "v": self.ver, "has_nulls": self.hn, "symptom": symptom}
+        s.update(self.ctx)
+        s.update(extra)
+        k = repr(sorted(s.items(), key=str))
+        if k not in self.sigs:
+            self.sigs[k] = s
+            if not self.detail:
+                self.detail = msg
+
+    def result(self):
+        ok = not self.sigs
+        return {"ok": ok, "outcome": "exact" if ok else "inexact", "nontrivial": self.counts["raw_compared"] > 0
+                or self.counts["view_compared"] > 0,
+                "counts": dict(self.counts), "sig": list(self.sigs.values()) or None, "detail": self.detail}
+
+
+def expected_chunks(cells, bounds, key):
+    out = []
+    for gi in range(len(bounds) - 1):
+        part = cells[bounds[gi]:bounds[gi + 1]]
+        nn = [c for c in part if c is not None]
+        out.append({"n": len(part), "nn": len(nn), "nulls": len(part) - len(nn),
+                    "min": min(nn, key=key) if nn else None, "max": max(nn, key=key) if nn else None})
+    return out
+
+
+def _textify(kind, v):
+    if kind in TEXT_KINDS and isinstance(v, bytes):
+        return v.decode("utf8")
+    return v
+
+
+def compare_raw(c, what, col, kind, node, stt, e, gi, st, dtype_kind):
+    """one chunk's Statistics struct (specpq dict) against the expected chunk; returns True when min/max are
+    present and exact"""
+    from mc import oracles as O
+    from mc.specpq import file as F
+    key = order_key(kind)
+    must = expect_minmax(kind, st, col, dtype_kind, e["nn"], e["nulls"])
+    if stt is None:
+        if must:
+            c.bad("stats_missing", "%s: %s rg %d: no Statistics although stats=%s covers the column" % (what, col, gi, st), col=col)
+        return False
+    optional = node.rep == F.OPTIONAL
+    if stt.get("null_count") is not None:
+        want_nulls = e["nulls"] if optional else 0
+        if stt["null_count"] != want_nulls:
+            c.bad("null_count", "%s: %s rg %d null_count=%d, %d cells are NULL" % (what, col, gi, stt["null_count"], want_nulls), col=col)
+    pairs = []
+    if stt.get("min") is not None or stt.get("max") is not None:
+        pairs.append(("deprecated", stt.get("min"), stt.get("max")))
+    if stt.get("min_value") is not None or stt.get("max_value") is not None:
+        pairs.append(("value", stt.get("min_value"), stt.get("max_value")))
+    if not pairs:
+        if must:
+            c.bad("stats_missing", "%s: %s rg %d: no min/max although stats=%s covers the column" % (what, col, gi, st), col=col)
+        return False
+    good = True
+    for which, smin, smax in pairs:
+        if (smin is None) != (smax is None):
+            c.bad("half_present", "%s: %s rg %d only one of min/max present (%s pair)" % (what, col, gi, which), col=col)
+            good = False
+            continue
+        if not e["nn"]:
+            c.bad("minmax_on_all_null", "%s: %s rg %d has no non-null value but min/max present" % (what, col, gi), col=col)
+            good = False
+            continue
+        try:
+            gmin, gmax = decode_stat(smin, node, kind), decode_stat(smax, node, kind)
+        except Exception as ex:
+            c.bad("undecodable", "%s: %s rg %d statistics bytes: %s" % (what, col, gi, ex), col=col)
+            good = False
+            continue
+        gmin, gmax = _textify(kind, gmin), _textify(kind, gmax)
+        try:
+            if key(gmin) > key(gmax):
+                c.bad("min_gt_max", "%s: %s rg %d stored min %r > max %r" % (what, col, gi, gmin, gmax), col=col)
+                good = False
+                continue
+        except TypeError:
+            pass
+        if not O.same_value(gmin, e["min"]) or not O.same_value(gmax, e["max"]):
+            wrong = "min" if not O.same_value(gmin, e["min"]) else "max"
+            extra = {}
+            if isinstance(e[wrong], tuple) and not (NS_RANGE[0] <= e[wrong][1] <= NS_RANGE[1]):
+                extra["bound"] = "outside_ns"
+            c.bad("inexact", "%s: %s rg %d stored min/max %r/%r (%s pair), data min/max %r/%r" % (
+                what, col, gi, gmin, gmax, which, e["min"], e["max"]), which=wrong, col=col, **extra)
+            good = False
+            continue
+        if which == "value":
+            c.counts["new_pair_compared"] += 1
+    if good:
+        c.counts["raw_compared"] += 1
+    return good
+
+
+def compare_view(c, what, col, kind, pstats, exps, present, null_counts):
+    """ParquetFile.statistics of one column against the expected chunks.
+    present[gi]: the chunk carries exact raw min/max; null_counts[gi]: stored null_count or None"""
+    from mc import oracles as O
+    if pstats is None:
+        return
+    try:
+        vmin, vmax, vnc = pstats["min"][col], pstats["max"][col], pstats["null_count"][col]
+    except Exception as ex:
+        c.bad("statistics_raised", "%s: view of %s: %s: %s" % (what, col, type(ex).__name__, ex), col=col)
+        return
+    if all(present) and present:
+        # every chunk carries bounds: the view has nothing to decline
+        if len(vmin) != len(exps) or len(vmax) != len(exps) or any(x is None for x in list(vmin) + list(vmax)):
+            c.bad("view_missing", "%s: every chunk of %s carries min/max but ParquetFile.statistics gives %r / %r" % (
+                what, col, vmin, vmax), col=col)
+    for gi, e in enumerate(exps):
+        if present[gi]:
+            try:
+                umin = O.canon_cell(vmin[gi]) if len(vmin) > gi else None
+                umax = O.canon_cell(vmax[gi]) if len(vmax) > gi else None
+            except Exception as ex:
+                c.bad("statistics_raised", "%s: view: %s" % (what, ex), col=col)
+                continue
+            if isinstance(umin, bytes) and isinstance(e["min"], str):
+                umin, umax = umin.decode("utf8"), umax.decode("utf8")
+            if umin is None and umax is None:
+                pass      # a view that declines to decode is not wrong (view_missing covers the all-present case)
+            elif not O.same_value(umin, e["min"]) or not O.same_value(umax, e["max"]):
+                c.bad("view_inexact", "%s: %s rg %d ParquetFile.statistics min/max %r/%r, data %r/%r" % (
+                    what, col, gi, umin, umax, e["min"], e["max"]), col=col)
+            else:
+                c.counts["view_compared"] += 1
+        nc = vnc[gi] if len(vnc) > gi else None
+        if nc is not None and null_counts[gi] is not None and nc != null_counts[gi]:
+            c.bad("view_null_count", "%s: %s rg %d view null_count %r != stored %r" % (what, col, gi, nc, null_counts[gi]), col=col)
+        elif nc is None and null_counts[gi] is not None:
+            c.bad("view_null_count", "%s: %s rg %d view null_count missing, stored %r" % (what, col, gi, null_counts[gi]), col=col)
+
+
+def compare_spc(c, what, col, kind, spc, exps, present, label="sorted"):
+    """sorted_partitioned_columns verdict and returned bounds for one column"""
+    from mc import oracles as O
+    key = order_key(kind)
+    really = all(e["nn"] for e in exps) and all(
+        key(a["max"]) < key(b["min"]) for a, b in zip(exps[:-1], exps[1:]))
+    if col in spc:
+        c.counts["spc_reported"] += 1
+        if len(exps) > 1 and not really:
+            c.bad(label + "_wrong", "%s: %s reported as sorted across row groups but data max/min are %r / %r" % (
+                what, col, [e["max"] for e in exps], [e["min"] for e in exps]), col=col)
+            return
+        if not all(present):
+            return      # a raw bound is already reported wrong (or absent): nothing independent to add
+        try:
+            gmin = [O.canon_cell(x) for x in spc[col]["min"]]
+            gmax = [O.canon_cell(x) for x in spc[col]["max"]]
+        except Exception as ex:
+            c.bad(label + "_raised", "%s: bounds returned for %s: %s" % (what, col, ex), col=col)
+            return
+        gmin = [_textify(kind, x) for x in gmin]
+        gmax = [_textify(kind, x) for x in gmax]
+        emin, emax = [e["min"] for e in exps], [e["max"] for e in exps]
+        if len(gmin) != len(emin) or len(gmax) != len(emax) or not all(
+                O.same_value(a, b) for a, b in zip(gmin + gmax, emin + emax)):
+            c.bad(label + "_bounds", "%s: sorted_partitioned_columns[%s] = %r / %r, data min/max per row group %r / %r" % (
+                what, col, gmin, gmax, emin, emax), col=col)
+    elif exps and all(present) and really:
+        c.bad(label + "_missed", "%s: %s has exact bounds on every row group, strictly increasing (%r / %r), "
+              "but is not reported as sorted" % (what, col, [e["min"] for e in exps], [e["max"] for e in exps]), col=col)
+
+
+def check_file(c, what, path, cols, bounds, st, parsed, filters=None, kept=None):
+    """all three observation points for one written file.
+    cols: [(name, kind, cells, dtype_kind)]; returns the open ParquetFile (or None)"""
+    import fastparquet
+    from fastparquet import api
+    pf = fastparquet.ParquetFile(path)
+    try:
+        pstats = pf.statistics
+    except Exception as ex:
+        c.bad("statistics_raised", "%s: ParquetFile.statistics: %s: %s" % (what, type(ex).__name__, ex))
+        pstats = None
+    try:
+        spc = api.sorted_partitioned_columns(pf)
+    except Exception as ex:
+        c.bad("sorted_raised", "%s: sorted_partitioned_columns: %s: %s" % (what, type(ex).__name__, ex))
+        spc = None
+    names = [n.name for n in parsed.root.children]
+    per_col = {}
+    for col, kind, cells, dtype_kind in cols:
+        if col not in names:
+            c.bad("unreadable", "%s: column %s not in the schema %r" % (what, col, names))
+            continue
+        ci = names.index(col)
+        node = parsed.root.children[ci]
+        exps = expected_chunks(cells, bounds, order_key(kind))
+        present, ncs = [], []
+        for gi, e in enumerate(exps):
+            md = parsed.fmd["row_groups"][gi]["columns"][ci]["meta_data"]
+            stt = md.get("statistics")
+            if e["nn"]:
+                c.counts["chunks"] += 1
+            present.append(compare_raw(c, what, col, kind, node, stt, e, gi, st, dtype_kind))
+            ncs.append(stt.get("null_count") if stt else None)
+            if isinstance(st, list) and col not in st and stt is not None and (
+                    stt.get("min") is not None or stt.get("max") is not None or stt.get("min_value") is not None
+                    or stt.get("max_value") is not None):
+                c.bad("unlisted_column_stats", "%s: stats=%r does not list %s but rg %d carries min/max" % (what, st, col, gi), col=col)
+        compare_view(c, what, col, kind, pstats, exps, present, ncs)
+        if spc is not None:
+            compare_spc(c, what, col, kind, spc, exps, present)
+        per_col[col] = (kind, exps, present)
+    if filters is not None and spc is not None:
+        # which row groups survive is another property's business: take the library's answer, check the sub-setting
+        try:
+            idx = list(api.filter_row_groups(pf, filters, as_idx=True))
+            fspc = api.sorted_partitioned_columns(pf, filters=filters)
+        except Exception as ex:
+            c.bad("sorted_raised", "%s: sorted_partitioned_columns(filters=%r): %s: %s" % (what, filters, type(ex).__name__, ex))
+            return pf
+        if kept is not None and idx == kept:
+            c.counts["spc_filtered"] += 1
+        for col, (kind, exps, present) in per_col.items():
+            # a column with a chunk lacking bounds is summarised as unusable before the selection: no completeness
+            compare_spc(c, what + " filters=%r kept=%r" % (filters, idx), col, kind, fspc, [exps[i] for i in idx],
+                        [all(present)] * len(idx), label="sorted_filtered")
+    return pf
+
+
+def refooter(path, out, mode, footer_start):
+    """rewrite the footer the way a writer of the current format version fills Statistics:
+    new_only = min_value/max_value instead of min/max; both = both pairs; mixed = rg 0 old style, the others new_only"""
+    import struct
+    import fastparquet
+    pf = fastparquet.ParquetFile(path)
+    for gi, rg in enumerate(pf.fmd.row_groups):
+        for ch in rg.columns:
+            s = ch.meta_data.statistics
+            if s is None or (s.min is None and s.max is None):
+                continue
+            if mode == "mixed" and gi == 0:
+                continue
+            s.min_value, s.max_value = s.min, s.max
+            if mode != "both":
+                s.min = None
+                s.max = None
+    foot = bytes(pf.fmd.to_bytes())
+    data = open(path, "rb").read()
+    with open(out, "wb") as f:
+        f.write(data[:footer_start] + foot + struct.pack("<I", len(foot)) + b"PAR1")
+
+
 def run(p):
     import os
     import fastparquet
     import pandas as pd
-    from fastparquet import api
-    from mc import alphabets as A, wr, oracles as O
+    from mc import wr, oracles as O
     from mc.scratch import scratch
     from mc.specpq import file as F
     kind, ver, hn = p["kind"], p["v"], p["has_nulls"]
-    key = order_key(kind)
-    sigs = {}
-    detail = [""]
-    chunks = [0]
-    refused = [0]
-    ctx = {}
-
-    def bad(symptom, msg, **extra):
-        s = {"kind": kind, "v": ver, "has_nulls": hn, "symptom": symptom}
-        s.update(ctx)
-        s.update(extra)
-        k = repr(sorted(s.items(), key=str))
-        if k not in sigs:
-            sigs[k] = s
-            if not detail[0]:
-                detail[0] = msg
-
+    c = Ctx(kind, ver, hn)
     if kind == "json_obj":
         return {"ok": True, "outcome": "unordered_kind", "nontrivial": False}
     n = 6
-    for prog in PROGRAMS:
-        for pat in (A.patterns_for(kind) if prog != "single" else ["none"]):
-            s = build_series(kind, prog, pat, n)
-            if s is None:
-                continue
-            df = s.to_frame()
-            cells = O.series_to_list(df["c"])
-            for rgo in [None] + [[0, k] for k in range(1, n)]:
-                thorough = p["tier"] == "thorough"
-                for st in ((True, "auto", ["c"], False) if (thorough or rgo in (None, [0, 3])) else (True,)):
-                    for tiny in ((False, True) if (thorough or rgo is None) else (False,)):
-                        ctx.clear()
-                        ctx.update({"prog": prog, "nulls": pat, "stats": str(st), "split": rgo is not None})
-                        what = "%s prog=%s nulls=%s rgo=%s stats=%s tiny=%s" % (kind, prog, pat, rgo, st, tiny)
-                        d = scratch()
-                        path = os.path.join(d, "t.parquet")
-                        try:
-                            with wr.PageCfg(ver, wr.tiny_page_size(df, 2) if tiny else None):
-                                fastparquet.write(path, df, row_group_offsets=rgo, stats=st, has_nulls=hn)
-                        except Exception:
-                            refused[0] += 1
+    thorough = p["tier"] == "thorough"
+    is_dt = kind.startswith("dt_")
+    for sel in ("lo", "hi", "xlo"):
+        progs = PROGRAMS if (sel == "lo" or thorough) else HI_PROGRAMS_QUICK
+        for prog in progs:
+            pats = patterns_for(kind) if prog != "single" else ["none"]
+            if sel != "lo" and not thorough:
+                pats = [q for q in pats if q == "none" or (q == "alt" and prog == "asc")]
+            for pat in pats:
+                s = build_series(kind, prog, pat, n, sel)
+                if s is None:
+                    continue
+                df1 = s.to_frame()
+                df2 = s.to_frame()
+                df2["d"] = pd.Series([n - 1 - i for i in range(n)], dtype="int64")
+                cells = O.series_to_list(df1["c"])
+                dcells = [n - 1 - i for i in range(n)]
+                dk = getattr(s.dtype, "kind", "O")
+                if sel == "lo":
+                    splits = [None] + [[0, k] for k in range(1, n)] + SPLITS3
+                else:
+                    splits = [None, [0, 3]] + (SPLITS3 if thorough else SPLITS3[:1])
+                for rgo in splits:
+                    three = rgo is not None and len(rgo) == 3
+                    if three:
+                        if not thorough and rgo != SPLITS3[0] and prog not in ("asc", "overlap", "touch"):
                             continue
-                        try:
-                            parsed = F.read_file(open(path, "rb").read())
-                        except Exception as e:
-                            bad("unreadable", "%s: %s" % (what, e))
-                            continue
-                        node = parsed.root.children[0]
-                        bounds = [0, n] if rgo is None else [0, rgo[1], n]
-                        pf = fastparquet.ParquetFile(path)
-                        try:
-                            pstats = pf.statistics
-                        except Exception as e:
-                            bad("statistics_raised", "%s: ParquetFile.statistics: %s: %s" % (what, type(e).__name__, e))
-                            pstats = None
-                        exp_min, exp_max = [], []
-                        for gi in range(len(bounds) - 1):
-                            part = cells[bounds[gi]:bounds[gi + 1]]
-                            nn = [c for c in part if c is not None]
-                            nulls = len(part) - len(nn)
-                            emin = min(nn, key=key) if nn else None
-                            emax = max(nn, key=key) if nn else None
-                            exp_min.append(emin)
-                            exp_max.append(emax)
-                            md = parsed.fmd["row_groups"][gi]["columns"][0]["meta_data"]
-                            stt = md.get("statistics")
-                            if nn:
-                                chunks[0] += 1
-                            if stt is None:
-                                continue
-                            smin = stt.get("min") if stt.get("min") is not None else stt.get("min_value")
-                            smax = stt.get("max") if stt.get("max") is not None else stt.get("max_value")
-                            optional = node.rep == F.OPTIONAL
-                            if stt.get("null_count") is not None:
-                                want_nulls = nulls if optional else 0
-                                if stt["null_count"] != want_nulls:
-                                    bad("null_count", "%s: rg %d null_count=%d, %d cells are NULL" % (what, gi, stt["null_count"], want_nulls))
-                            if (smin is None) != (smax is None):
-                                bad("half_present", "%s: rg %d only one of min/max present" % (what, gi))
-                                continue
-                            if smin is None:
-                                continue
-                            if not nn:
-                                bad("minmax_on_all_null", "%s: rg %d has no non-null value but min/max present" % (what, gi))
-                                continue
-                            try:
-                                gmin, gmax = decode_stat(smin, node, kind), decode_stat(smax, node, kind)
-                            except Exception as e:
-                                bad("undecodable", "%s: rg %d statistics bytes: %s" % (what, gi, e))
-                                continue
-                            if kind in ("str_obj", "str_pd") or kind.startswith("cat_str") or kind == "cat_unused":
-                                gmin = gmin.decode("utf8") if isinstance(gmin, bytes) else gmin
-                                gmax = gmax.decode("utf8") if isinstance(gmax, bytes) else gmax
-                            try:
-                                if key(gmin) > key(gmax):
-                                    bad("min_gt_max", "%s: rg %d stored min %r > max %r" % (what, gi, gmin, gmax))
-                                    continue
-                            except TypeError:
-                                pass
-                            if not O.same_value(gmin, emin) or not O.same_value(gmax, emax):
-                                bad("inexact", "%s: rg %d stored min/max %r/%r, data min/max %r/%r" % (what, gi, gmin, gmax, emin, emax),
-                                    which="min" if not O.same_value(gmin, emin) else "max")
-                                continue
-                            # user-facing view
-                            if pstats is not None:
+                        sts = (True, "auto", ["c"], False) if thorough else (
+                            (True, ["c"]) if (rgo == SPLITS3[0] and prog in ("asc", "desc")) else (True,))
+                    elif sel != "lo" and not thorough:
+                        sts = (True,)
+                    else:
+                        sts = (True, "auto", ["c"], False) if (thorough or rgo in (None, [0, 3])) else (True,)
+                    for st in sts:
+                        tinies = (False, True) if ((thorough and (sel == "lo" or rgo is None))
+                                                   or (rgo is None and sel == "lo")) else (False,)
+                        for tiny in tinies:
+                            times_opts = ("int64", "int96") if (is_dt and st is True and not tiny and (
+                                thorough or rgo in (None, [0, 3]) or (rgo == SPLITS3[0] and prog in ("asc", "overlap")))
+                            ) else ("int64",)
+                            for times in times_opts:
+                                df = df2 if three else df1
+                                c.ctx = {"prog": prog, "nulls": pat, "stats": str(st), "split": rgo is not None}
+                                if three:
+                                    c.ctx["rgs"] = 3
+                                if sel != "lo":
+                                    c.ctx["sel"] = sel
+                                if times != "int64":
+                                    c.ctx["times"] = times
+                                what = "%s sel=%s prog=%s nulls=%s rgo=%s stats=%s tiny=%s times=%s" % (
+                                    kind, sel, prog, pat, rgo, st, tiny, times)
+                                d = scratch()
+                                path = os.path.join(d, "t.parquet")
                                 try:
-                                    umin = O.canon_cell(pstats["min"]["c"][gi]) if len(pstats["min"]["c"]) > gi else None
-                                    umax = O.canon_cell(pstats["max"]["c"][gi]) if len(pstats["max"]["c"]) > gi else None
-                                except Exception as e:
-                                    bad("statistics_raised", "%s: view: %s" % (what, e))
+                                    with wr.PageCfg(ver, wr.tiny_page_size(df, 2) if tiny else None):
+                                        fastparquet.write(path, df, row_group_offsets=rgo, stats=st, has_nulls=hn,
+                                                          times=times)
+                                except Exception as ex:
+                                    c.counts["refused"] += 1
+                                    if not refusal_allowed(kind, hn, cells, times):
+                                        c.bad("write_refused", "%s: %s: %s" % (what, type(ex).__name__, ex))
                                     continue
-                                if isinstance(umin, bytes) and isinstance(emin, str):
-                                    umin, umax = umin.decode("utf8"), umax.decode("utf8")
-                                if umin is None and umax is None:
-                                    pass      # a view that declines to decode is not wrong
-                                elif not O.same_value(umin, emin) or not O.same_value(umax, emax):
-                                    bad("view_inexact", "%s: rg %d ParquetFile.statistics min/max %r/%r, data %r/%r" % (
-                                        what, gi, umin, umax, emin, emax))
-                                nc = pstats["null_count"]["c"][gi] if len(pstats["null_count"]["c"]) > gi else None
-                                if nc is not None and stt.get("null_count") is not None and nc != stt["null_count"]:
-                                    bad("view_null_count", "%s: rg %d view null_count %r != stored %r" % (what, gi, nc, stt["null_count"]))
-                        # sorted_partitioned_columns
-                        try:
-                            spc = api.sorted_partitioned_columns(pf)
-                        except Exception as e:
-                            bad("sorted_raised", "%s: sorted_partitioned_columns: %s: %s" % (what, type(e).__name__, e))
-                            spc = {}
-                        if "c" in spc and len(bounds) > 2:
-                            ok_sorted = all(m1 is not None and m2 is not None and key(m1) < key(m2)
-                                            for m1, m2 in zip(exp_max[:-1], exp_min[1:]))
-                            if not ok_sorted:
-                                bad("sorted_wrong", "%s: reported as sorted across row groups but data max/min are %r / %r" % (
-                                    what, exp_max, exp_min))
-    ok = not sigs
-    return {"ok": ok, "outcome": "exact" if ok else "inexact", "nontrivial": chunks[0] > 0,
-            "counts": {"chunks": chunks[0], "refused": refused[0]}, "sig": list(sigs.values()) or None,
-            "detail": detail[0]}
+                                try:
+                                    parsed = F.read_file(open(path, "rb").read())
+                                except Exception as ex:
+                                    c.bad("unreadable", "%s: %s" % (what, ex))
+                                    continue
+                                bounds = [0, n] if rgo is None else list(rgo) + [n]
+                                cols = [("c", kind, cells, dk)]
+                                filters = kept = None
+                                if three:
+                                    cols.append(("d", "int64", dcells, "i"))
+                                    # d runs n-1 .. 0: the middle row group is the one whose range lies inside (lo, hi)
+                                    hi_d, lo_d = dcells[bounds[1]], dcells[bounds[2] - 1]
+                                    filters = [[("d", ">", hi_d)], [("d", "<", lo_d)]]
+                                    kept = [0, 2]
+                                try:
+                                    check_file(c, what, path, cols, bounds, st, parsed, filters, kept)
+                                except Exception as ex:
+                                    c.bad("statistics_raised", "%s: %s: %s" % (what, type(ex).__name__, ex))
+                                    continue
+                                # the same data pages under a footer that uses the min_value / max_value fields
+                                if rgo == [0, 3] and st is True and not tiny and (thorough or sel == "lo"):
+                                    modes = FOREIGN_MODES if (thorough or prog == "asc") else FOREIGN_MODES[:1]
+                                    for mode in modes:
+                                        c.ctx["footer"] = mode
+                                        w2 = what + " footer=" + mode
+                                        path2 = os.path.join(d, "f_%s.parquet" % mode)
+                                        try:
+                                            refooter(path, path2, mode, parsed.footer_start)
+                                            parsed2 = F.read_footer(open(path2, "rb").read())
+                                        except Exception as ex:
+                                            c.bad("harness_refooter", "%s: %s: %s" % (w2, type(ex).__name__, ex))
+                                            continue
+                                        c.counts["foreign_files"] += 1
+                                        try:
+                                            check_file(c, w2, path2, cols, bounds, st, parsed2)
+                                        except Exception as ex:
+                                            c.bad("statistics_raised", "%s: %s: %s" % (w2, type(ex).__name__, ex))
+    return c.result()
 
 
-LEVEL_TEXT = ("Bounded-exhaustive lattice over every dtype x value-order program x null pattern x every two-way row-group "
-              "split x stats setting x nullability x page version x page size; the statistics of every chunk are "
-              "decoded independently from the raw footer bytes and compared with a pure-Python min/max/null count of "
-              "the chunk's cells under the type's ordering, and the user-facing views are compared with the same values.")
+# ------------------------------------------------------------------------------------- history on one handle
+def _thrift_view(pf, col):
+    """(present, null_counts) per row group from the handle's own metadata"""
+    present, ncs = [], []
+    for rg in pf.row_groups:
+        ch = [x for x in rg.columns if list(x.meta_data.path_in_schema) == [col]][0]
+        s = ch.meta_data.statistics
+        present.append(s is not None and ((s.min is not None and s.max is not None)
+                                          or (s.min_value is not None and s.max_value is not None)))
+        ncs.append(s.null_count if s is not None else None)
+    return present, ncs
+
+
+def _check_handle(c, what, pf, kind, chunks, path):
+    """the memoised view of a handle, the function view, a re-opened handle and the oracle must all agree"""
+    import fastparquet
+    from fastparquet import api
+    key = order_key(kind)
+    exps = []
+    for part in chunks:
+        exps.extend(expected_chunks(part, [0, len(part)], key))
+    try:
+        memo = pf.statistics
+        fresh = api.statistics(pf)
+        spc = api.sorted_partitioned_columns(pf)
+    except Exception as ex:
+        c.bad("statistics_raised", "%s: %s: %s" % (what, type(ex).__name__, ex))
+        return
+    if len(pf.row_groups) != len(exps):
+        c.bad("harness_history", "%s: handle has %d row groups, program expects %d" % (what, len(pf.row_groups), len(exps)))
+        return
+    if repr(memo) != repr(fresh):
+        c.bad("view_stale", "%s: ParquetFile.statistics %r differs from statistics(pf) %r" % (
+            what, memo["max"], fresh["max"]))
+    if path is not None:
+        try:
+            again = fastparquet.ParquetFile(path).statistics
+            if repr(again) != repr(fresh):
+                c.bad("view_stale", "%s: statistics(pf) %r differs from a re-opened handle %r" % (what, fresh["max"], again["max"]))
+        except Exception as ex:
+            c.bad("statistics_raised", "%s: reopen: %s: %s" % (what, type(ex).__name__, ex))
+    present, ncs = _thrift_view(pf, "c")
+    for gi, e in enumerate(exps):
+        if ncs[gi] is not None and ncs[gi] not in (e["nulls"], 0):
+            c.bad("null_count", "%s: rg %d null_count=%r, %d cells are NULL" % (what, gi, ncs[gi], e["nulls"]))
+        if present[gi] and not e["nn"]:
+            c.bad("minmax_on_all_null", "%s: rg %d has no non-null value but min/max present" % (what, gi))
+            present[gi] = False
+    compare_view(c, what, "c", kind, memo, exps, present, ncs)
+    compare_spc(c, what, "c", kind, spc, exps, present)
+    c.counts["history_steps"] += 1
+
+
+def run_history(p):
+    import os
+    import fastparquet
+    from mc import wr, oracles as O
+    from mc.scratch import scratch
+    kind, ver, hn = p["kind"], p["v"], p["has_nulls"]
+    c = Ctx(kind, ver, hn)
+    n = 6
+    for prog, pat in (("asc", "none"), ("asc", "alt"), ("desc", "none"), ("overlap", "first")):
+        if pat != "none" and not nullable(kind):
+            continue
+        if p["tier"] != "thorough" and prog != "asc":
+            continue
+        s = build_series(kind, prog, pat, n)
+        if s is None:
+            continue
+        df = s.to_frame()
+        cells = O.series_to_list(df["c"])
+        for scheme in ("simple", "hive"):
+            c.ctx = {"prog": prog, "nulls": pat, "scheme": scheme, "history": True}
+            what = "%s history prog=%s nulls=%s scheme=%s" % (kind, prog, pat, scheme)
+            d = scratch()
+            path = os.path.join(d, "t.parquet" if scheme == "simple" else "ds")
+            try:
+                with wr.PageCfg(ver, None):
+                    fastparquet.write(path, df, row_group_offsets=[0, 3], stats=True, has_nulls=hn, file_scheme=scheme)
+            except Exception as ex:
+                c.counts["refused"] += 1
+                if not refusal_allowed(kind, hn, cells):
+                    c.bad("write_refused", "%s: %s: %s" % (what, type(ex).__name__, ex))
+                continue
+            try:
+                pf = fastparquet.ParquetFile(path)
+                chunks = [cells[0:3], cells[3:6]]
+                _check_handle(c, what + " step=open", pf, kind, chunks, path)
+                # the handle has memoised its statistics: now it grows
+                c.ctx["step"] = "append"
+                with wr.PageCfg(ver, None):
+                    pf.write_row_groups(df.iloc[1:3], stats=True)
+                chunks = chunks + [cells[1:3]]
+                _check_handle(c, what + " step=append", pf, kind, chunks, path)
+                c.ctx["step"] = "slice"
+                _check_handle(c, what + " step=slice", pf[1:], kind, chunks[1:], None)
+                if scheme == "hive":
+                    c.ctx["step"] = "remove"
+                    pf.remove_row_groups(pf.row_groups[0])
+                    chunks = chunks[1:]
+                    _check_handle(c, what + " step=remove", pf, kind, chunks, path)
+                    c.ctx["step"] = "append2"
+                    with wr.PageCfg(ver, None):
+                        pf.write_row_groups(df.iloc[0:1], stats=True)
+                    chunks = chunks + [cells[0:1]]
+                    _check_handle(c, what + " step=append2", pf, kind, chunks, path)
+            except Exception as ex:
+                c.bad("history_raised", "%s step=%s: %s: %s" % (what, c.ctx.get("step", "open"), type(ex).__name__, ex))
+    return c.result()
+
+
+LEVEL_TEXT = ("Bounded-exhaustive lattice over every dtype (plus masked Float64 and a categorical with timestamp labels) "
+              "x two value selections (smallest / largest incl. 2^53+1, years 1000 and 3000, sub-second stamps) x "
+              "value-order program x null pattern x every two-way and three three-way row-group splits (the latter on a "
+              "two-column frame) x stats setting x nullability x page version x page size x times (int64, int96); the "
+              "statistics of every chunk are decoded independently from the raw footer bytes (deprecated and new field "
+              "pair) and compared with a pure-Python min/max/null count of the chunk's cells under the type's ordering; "
+              "the user-facing views (statistics, sorted_partitioned_columns incl. its returned bounds and its filters "
+              "argument) are compared with the same values, also under re-written footers that carry only "
+              "min_value/max_value, and along a history of appends, removals and slices on one memoising handle. "
+              "Presence of min/max, refusals and the views' right to decline are pinned, so an empty comparison fails.")
 LEVEL_NOTE = ("Trusted: specpq footer decode, Python ordering functions per type. Six rows per frame; pools of boundary "
-              "values (unsigned >= 2^63, pre-epoch, +-inf, -0.0, unicode).")
-TECHNIQUE = "bounded exhaustive enumeration of value orders x splits x options, independent decode of raw statistics"
+              "values (unsigned >= 2^63, signed / unsigned maxima, 2^53+1, pre-epoch, outside the ns range, +-inf, "
+              "denormal, -0.0, unicode). Foreign footers are produced by re-serialising the library's own footer object "
+              "and validated with specpq.")
+TECHNIQUE = "bounded exhaustive enumeration of value orders x splits x options x handle histories, independent decode of raw statistics"
